@@ -8,6 +8,7 @@ import (
 
 	"verif/harness/clockx"
 	"verif/harness/forge"
+	"verif/harness/idsx"
 	"verif/harness/page"
 	"verif/harness/world"
 )
@@ -15,6 +16,8 @@ import (
 var commands = map[string]func(args []string){
 	"page":         page.Run,
 	"clock":        clockx.Run,
+	"ids-vectors":  idsx.Vectors,
+	"ids-trace":    idsx.Trace,
 	"forge":        forge.Run,
 	"forge-worker": forge.Worker,
 	"world":        world.RunCmd,
